@@ -217,7 +217,10 @@ def impl_roles(tmp, soc, cfg_text, queries):
 def name_pool(rng, deep):
     base = ["nordicsemi.com", "nRF54H20_sample_app", "nRF54H20_sample_root", "", "a", "A", " ", "é€", "名前.example", "ß.de", "\U0001F600 app",
             "x" * 39, "x" * 40, "x" * 47, "x" * 48, "y" * 55, "y" * 56, "z" * 1024, "ü" * 512, "vendor with spaces", "UPPER.Case.COM",
-            "nordicsemi.com ", "Nordicsemi.com", "nRF54H20_sample_app​", "0", "null", "tab\there", "quote\"inside", "back\\slash"]
+            "nordicsemi.com ", "Nordicsemi.com", "nRF54H20_sample_app​", "0", "null", "tab\there", "quote\"inside", "back\\slash",
+            # names that READ as something else: UUID spellings (a name is always hashed, never taken as an identifier), hex, numbers, paths
+            "0123456789abcdef0123456789abcdef", "12345678-1234-5678-1234-567812345678", "{12345678-1234-5678-1234-567812345678}",
+            "urn:uuid:12345678-1234-5678-1234-567812345678", "7617daa5-71fd-5a85-8f94-e28d735ce9f4", "DEADBEEF", "0x10", "1e3", "../x", "a/b"]
     for _ in range(40 if deep else 12):
         n = rng.choice([1, 2, 5, 16, 17, 63, 64, 65, 200])
         alphabet = rng.choice(["abcXYZ019._-", "αβγδεζ", "日本語テキスト", "áë", "\U0001F680\U0001F6F0"])
@@ -226,7 +229,8 @@ def name_pool(rng, deep):
 
 
 CFG_NAMES = ["nordicsemi.com", "nRF54H20_sample_root", "nRF54H20_sample_app", "nRF54H20_sample_rad", "nRF54H20_nordic_top",
-             "nRF9280_sample_app", "acme.example", "root_custom_class", "app custom", "é€ radio", "名前", "", "x" * 300, "y", "0x1F", "123", "acme#1", "acme#2", "a=b", " lead", "trail ", "semi;colon", "UPPER.Example.COM"]
+             "nRF9280_sample_app", "acme.example", "root_custom_class", "app custom", "é€ radio", "名前", "", "x" * 300, "y", "0x1F", "123", "acme#1", "acme#2", "a=b", " lead", "trail ", "semi;colon", "UPPER.Example.COM",
+             "0123456789abcdef0123456789abcdef", "12345678-1234-5678-1234-567812345678"]
 
 
 def gen_config(rng):
@@ -333,7 +337,9 @@ def check_sites(ck, tmp, stream, v, c, mres):
 
 def sites_stream(ck, tmp):
     pool = name_pool(ck.rng, ck.deep)
+    looks = [n for n in pool if n[:8] in ("01234567", "12345678", "{1234567", "urn:uuid", "7617daa5")]
     cases = [(v, c) for v in pool[:12] for c in pool[:12] if ck.rng.random() < (1.0 if ck.deep else 0.5)]
+    cases += [(v, c) for v in looks + pool[:2] for c in looks + pool[:2]]
     cases += [(ck.rng.choice(pool), ck.rng.choice(pool)) for _ in range(3000 if ck.deep else 250)]
     cases += [(v, v) for v in pool[:20]]
     mres = ck.model([["uuid_sites", v.encode(), c.encode()] for v, c in cases])
